@@ -65,6 +65,7 @@ public class FPImpl {
     if (Double.isNaN(x) || Double.isInfinite(x) || x == 0.0) return v(x);
     return v(new BigDecimal(x).setScale(6, RoundingMode.HALF_EVEN).doubleValue());
   }
+  @TLAPlusOperator(identifier="FRound32", module="FP", warn=false) public static Value FRound32(Value a) { return v((double) (float) d(a)); }
   @TLAPlusOperator(identifier="FStr", module="FP", warn=false) public static Value FStr(Value a) { return new StringValue(Double.toString(d(a))); }
   @TLAPlusOperator(identifier="FUlps", module="FP", warn=false) public static Value FUlps(Value a, Value c) {
     double x = d(a), y = d(c);
